@@ -26,7 +26,7 @@
  *       order zip,lha,gzip,bzip2,xz,compress,pp,sqsh,arc,arcfs,mmcmp,lzx,s404 (names printed once
  *       in a header line), and `e` lines for exclude: input line `e <hexname>` -> `e <0|1>`.
  *   c08_unpack rle <casefile>
- *       each line: <hex packed> <dest_len> ; runs the real arc_unpack(method 3) -> `r <ok> <hex>`
+ *       each line: <hex packed> <dest_len> [method] ; runs the real arc_unpack(method, default 3) -> `r <ok> <hex>`
  *   c08_unpack dp <casefile>
  *       each line: <depacker name> <hex file> ; runs that depacker's real depack() on a memory stream
  *       (decrunch_compress, decrunch_pp, arc_read, decrunch_zip, decrunch_lha, ...) ->
@@ -480,6 +480,7 @@ static int mode_rle(const char *path)
 	while ((n = getline(&linebuf, &linecap, f)) > 0) {
 		char *a = strtok(linebuf, " \n");
 		char *b = strtok(NULL, " \n");
+		char *c = strtok(NULL, " \n");      /* optional: method (default ARC_M_PACKED), e.g. 4 = squeezed */
 		unsigned char *src, *dst;
 		long slen, dlen;
 		const char *err;
@@ -490,7 +491,7 @@ static int mode_rle(const char *path)
 		if (slen < 0 || dlen < 0)
 			return 2;
 		dst = (unsigned char *)calloc(1, (size_t)dlen + 1);
-		err = libxmp_arc_unpack(dst, (size_t)dlen, src, (size_t)slen, ARC_M_PACKED, 0);
+		err = libxmp_arc_unpack(dst, (size_t)dlen, src, (size_t)slen, c ? atoi(c) : ARC_M_PACKED, 0);
 		printf("r %d ", err == NULL ? 1 : 0);
 		put_hex(stdout, dst, err == NULL ? (size_t)dlen : 0);
 		printf("\n");
